@@ -122,11 +122,27 @@ pub fn run_case_x(
     wall_s: u64,
     nofuel: bool,
 ) -> std::io::Result<(ChildOutcome, ChildClass)> {
+    run_case_limits(exe, entry, target, opt, input, cpu_limit_s, wall_s, nofuel, None)
+}
+
+/// As `run_case_x`, with an address-space limit for the child.
+#[allow(clippy::too_many_arguments)]
+pub fn run_case_limits(
+    exe: &Path,
+    entry: Entry,
+    target: &str,
+    opt: usize,
+    input: &[u8],
+    cpu_limit_s: u64,
+    wall_s: u64,
+    nofuel: bool,
+    as_bytes: Option<u64>,
+) -> std::io::Result<(ChildOutcome, ChildClass)> {
     let mut args = vec!["child".to_string(), entry.name().to_string(), target.to_string(), opt.to_string()];
     if nofuel {
         args.push("nofuel".into());
     }
-    let o = vcore::obs::run_child(exe, &args, Some(input), Some(STACK_BYTES), None, Some(cpu_limit_s), wall_s)?;
+    let o = vcore::obs::run_child(exe, &args, Some(input), Some(STACK_BYTES), as_bytes, Some(cpu_limit_s), wall_s)?;
     let c = classify(&o);
     Ok((o, c))
 }
